@@ -1,5 +1,270 @@
+(* C07: proofs about the stream re-framing model (Stream/Model.v) against the
+   property predicates of Stream/Spec.v. *)
 From Coq Require Import ZArith List Bool Lia.
 From GoCoap Require Import Base.Bytes Gen.StreamConsts Stream.Model Stream.Spec.
 Import ListNotations.
 Open Scope Z_scope.
-Lemma placeholder : True. Proof. exact I. Qed.
+
+Ltac Zify.zify_post_hook ::= Z.div_mod_to_equations.
+
+Lemma blen_app {A} (a b : list A) : blen (a ++ b) = blen a + blen b.
+Proof. unfold blen. rewrite app_length. lia. Qed.
+Lemma blen_nonneg {A} (a : list A) : 0 <= blen a.
+Proof. unfold blen. lia. Qed.
+Lemma blen_cons {A} (x : A) (a : list A) : blen (x :: a) = 1 + blen a.
+Proof. unfold blen. cbn [length]. lia. Qed.
+
+Lemma firstn_app_l {A} (a b : list A) n : (n <= length a)%nat -> firstn n (a ++ b) = firstn n a.
+Proof.
+  intros H. rewrite firstn_app. replace (n - length a)%nat with 0%nat by lia.
+  cbn [firstn]. apply app_nil_r.
+Qed.
+Lemma skipn_app_l {A} (a b : list A) n : (n <= length a)%nat -> skipn n (a ++ b) = skipn n a ++ b.
+Proof.
+  intros H. rewrite skipn_app. replace (n - length a)%nat with 0%nat by lia. reflexivity.
+Qed.
+Lemma firstn_exact {A} (a b : list A) : firstn (length a) (a ++ b) = a.
+Proof. rewrite firstn_app_l by lia. apply firstn_all. Qed.
+Lemma skipn_exact {A} (a b : list A) : skipn (length a) (a ++ b) = b.
+Proof. rewrite skipn_app_l by lia. rewrite skipn_all. reflexivity. Qed.
+
+(* ================================================================== *)
+(* Part 1: the accumulate-then-parse loop, for any one-frame function  *)
+(* whose decided answers are stable under extension of the buffer      *)
+
+Section Loop.
+  Variable stp : list Z -> sres.
+  Hypothesis stp_emit_len : forall b it n, stp b = Emit it n -> (0 < n <= length b)%nat.
+  Hypothesis stp_emit_stable : forall b it n c, stp b = Emit it n -> stp (b ++ c) = Emit it n.
+  Hypothesis stp_fail_stable : forall b e c, stp b = Fail e -> stp (b ++ c) = Fail e.
+
+  (* any fuel above the buffer length gives the same result: the fuel of [feed_with] never runs out *)
+  Lemma drain_fuel : forall f1 f2 b acc, (length b < f1)%nat -> (length b < f2)%nat ->
+    drain stp f1 b acc = drain stp f2 b acc.
+  Proof.
+    induction f1 as [|f1 IH]; intros f2 b acc H1 H2; [lia|].
+    destruct f2 as [|f2]; [lia|]. cbn [drain].
+    destruct (stp b) as [|e|it n] eqn:E; try reflexivity.
+    apply stp_emit_len in E. apply IH; rewrite skipn_length; lia.
+  Qed.
+
+  Lemma drain_app : forall f b acc c, (length b < f)%nat ->
+    drain stp (S (length (b ++ c))) (b ++ c) acc =
+    (let r := drain stp f b acc in
+     if running r then drain stp (S (length (buf r ++ c))) (buf r ++ c) (out r) else r).
+  Proof.
+    induction f as [|f IH]; intros b acc c Hf; [lia|].
+    cbn [drain]. destruct (stp b) as [|e|it n] eqn:E.
+    - reflexivity.
+    - rewrite (stp_fail_stable _ _ c E). reflexivity.
+    - rewrite (stp_emit_stable _ _ _ c E).
+      pose proof (stp_emit_len _ _ _ E) as Hn.
+      rewrite skipn_app_l by lia.
+      rewrite (drain_fuel (length (b ++ c)) (S (length (skipn n b ++ c)))).
+      + apply IH. rewrite skipn_length. lia.
+      + rewrite !app_length, skipn_length. lia.
+      + lia.
+  Qed.
+
+  Theorem feed_app : forall s a c, feed_with stp (feed_with stp s a) c = feed_with stp s (a ++ c).
+  Proof.
+    intros s a c. unfold feed_with at 2 3. destruct (running s) eqn:R.
+    - rewrite app_assoc. unfold feed_with.
+      symmetry. apply (drain_app (S (length (buf s ++ a)))). lia.
+    - unfold feed_with. rewrite R. reflexivity.
+  Qed.
+
+  Lemma fold_feed : forall cs s c,
+    fold_left (feed_with stp) cs (feed_with stp s c) = feed_with stp s (c ++ concat cs).
+  Proof.
+    induction cs as [|d cs IH]; intros s c; cbn [fold_left concat].
+    - rewrite app_nil_r. reflexivity.
+    - rewrite feed_app, IH, app_assoc. reflexivity.
+  Qed.
+
+  Hypothesis stp_nil : stp [] = Wait.
+
+  Theorem segmentation : forall cs, fold_left (feed_with stp) cs init = feed_with stp init (concat cs).
+  Proof.
+    intros [|c cs]; cbn [fold_left concat].
+    - unfold feed_with, init. cbn. rewrite stp_nil. reflexivity.
+    - rewrite fold_feed. reflexivity.
+  Qed.
+
+  (* a failed connection stays as it is *)
+  Lemma failed_absorbing : forall cs s, running s = false -> fold_left (feed_with stp) cs s = s.
+  Proof.
+    induction cs as [|c cs IH]; intros s R; cbn [fold_left]; [reflexivity|].
+    unfold feed_with at 2. rewrite R. apply IH, R.
+  Qed.
+
+  (* a run of frames each of which [stp] recognises at the front of any buffer *)
+  Lemma drain_frames : forall (fs : list (list Z * mitem)) rest acc f,
+    (forall e it r, In (e, it) fs -> stp (e ++ r) = Emit it (length e)) ->
+    (length (concat (map fst fs) ++ rest) < f)%nat ->
+    drain stp f (concat (map fst fs) ++ rest) acc =
+    drain stp (S (length rest)) rest (acc ++ map snd fs).
+  Proof.
+    induction fs as [|[e it] fs IH]; intros rest acc f Hall Hf; cbn [map concat fst snd] in Hf |- *.
+    - rewrite app_nil_r. cbn [app] in *. apply drain_fuel; lia.
+    - destruct f as [|f]; [lia|]. cbn [drain].
+      rewrite <- app_assoc. rewrite (Hall e it _ (or_introl eq_refl)).
+      rewrite skipn_exact.
+      pose proof (stp_emit_len _ _ _ (Hall e it [] (or_introl eq_refl))) as Hn.
+      rewrite IH.
+      + rewrite <- app_assoc. reflexivity.
+      + intros e' it' r Hin. apply Hall. right. exact Hin.
+      + rewrite <- app_assoc, app_length in Hf. lia.
+  Qed.
+End Loop.
+
+(* ================================================================== *)
+(* Part 2: the header decoder and the one-frame function               *)
+
+Lemma ltb_app_false {A} (r c : list A) n : (blen r <? n) = false -> (blen (r ++ c) <? n) = false.
+Proof. intros H. apply Z.ltb_ge in H. apply Z.ltb_ge. rewrite blen_app. pose proof (blen_nonneg c). lia. Qed.
+
+(* a header that is decided on a buffer is decided identically on every extension *)
+Lemma decode_header_stable fx b c :
+  decode_header_gen fx b <> HShort -> decode_header_gen fx (b ++ c) = decode_header_gen fx b.
+Proof.
+  destruct b as [|b0 r]; [intros H; cbn in H; congruence|].
+  cbn [app]. unfold decode_header_gen.
+  destruct (fx && (MaxTokenSize <? b0 mod 16)); [reflexivity|].
+  destruct (blen r <? Z.of_nat (ext_size (b0 / 16))) eqn:E1; [congruence|].
+  rewrite (ltb_app_false r c _ E1).
+  assert (Hle : (ext_size (b0 / 16) <= length r)%nat) by (apply Z.ltb_ge in E1; unfold blen in E1; lia).
+  rewrite (firstn_app_l r c _ Hle), (skipn_app_l r c _ Hle).
+  destruct (fx && (b0 / 16 =? 15) && (messageMaxLen <? be (firstn (ext_size (b0 / 16)) r))); [reflexivity|].
+  destruct (skipn (ext_size (b0 / 16)) r) as [|code r3]; [congruence|].
+  cbn [app]. destruct (blen r3 <? b0 mod 16) eqn:E2; [congruence|].
+  rewrite (ltb_app_false r3 c _ E2). reflexivity.
+Qed.
+
+(* an accepted header lies inside the buffer *)
+Lemma decode_header_ok_len fx b hlen mlen code tkl :
+  decode_header_gen fx b = HOk hlen mlen code tkl -> 2 <= hlen <= blen b /\ 0 <= tkl < 16 /\ 0 <= mlen < W32.
+Proof.
+  destruct b as [|b0 r]; [cbn; congruence|]. unfold decode_header_gen.
+  destruct (fx && (MaxTokenSize <? b0 mod 16)); [congruence|].
+  destruct (blen r <? Z.of_nat (ext_size (b0 / 16))) eqn:E1; [congruence|].
+  destruct (fx && (b0 / 16 =? 15) && (messageMaxLen <? be (firstn (ext_size (b0 / 16)) r))); [congruence|].
+  destruct (skipn (ext_size (b0 / 16)) r) as [|code' r3] eqn:ES; [congruence|].
+  destruct (blen r3 <? b0 mod 16) eqn:E2; [congruence|].
+  intros H.
+  assert (Hh : hlen = 1 + Z.of_nat (ext_size (b0 / 16)) + 1 + b0 mod 16) by congruence.
+  assert (Ht : tkl = b0 mod 16) by congruence.
+  assert (Hm : mlen = (1 + Z.of_nat (ext_size (b0 / 16)) + 1 + b0 mod 16 +
+                        op_len (b0 / 16) (be (firstn (ext_size (b0 / 16)) r)) mod W32) mod W32) by congruence.
+  clear H. subst hlen tkl mlen.
+  apply Z.ltb_ge in E1, E2.
+  assert (HL : blen r = Z.of_nat (ext_size (b0 / 16)) + 1 + blen r3).
+  { rewrite <- (firstn_skipn (ext_size (b0 / 16)) r) at 1. rewrite blen_app, ES, blen_cons.
+    unfold blen at 1. rewrite firstn_length. unfold blen in E1. lia. }
+  rewrite blen_cons. pose proof (blen_nonneg r3).
+  pose proof (Z.mod_pos_bound b0 16 ltac:(lia)).
+  split; [lia|]. split; [lia|]. apply Z.mod_pos_bound. reflexivity.
+Qed.
+
+(* [step] never gives up a decision when more bytes arrive *)
+Lemma step_stable fx max b c : step_gen fx max b <> Wait -> step_gen fx max (b ++ c) = step_gen fx max b.
+Proof.
+  destruct b as [|b0 r]; [cbn; congruence|].
+  cbn [app]. unfold step_gen. change (b0 :: r ++ c) with ((b0 :: r) ++ c).
+  set (b := b0 :: r).
+  destruct (decode_header_gen fx b) as [|e|hlen mlen code tkl] eqn:E; [congruence| |].
+  - rewrite decode_header_stable by congruence. rewrite E. reflexivity.
+  - rewrite decode_header_stable by congruence. rewrite E.
+    destruct (max <? mlen); [reflexivity|].
+    destruct (blen b <? mlen) eqn:E2; [congruence|].
+    rewrite (ltb_app_false b c _ E2).
+    pose proof (decode_header_ok_len _ _ _ _ _ _ E) as (_ & _ & Hm).
+    apply Z.ltb_ge in E2. unfold blen in E2.
+    rewrite firstn_app_l by lia. reflexivity.
+Qed.
+
+Lemma unmarshal_nil fx : unmarshal_gen fx [] = None.
+Proof. reflexivity. Qed.
+
+Lemma step_emit_len fx max b it n : step_gen fx max b = Emit it n -> (0 < n <= length b)%nat.
+Proof.
+  destruct b as [|b0 r]; [cbn; congruence|]. unfold step_gen. set (b := b0 :: r).
+  destruct (decode_header_gen fx b) as [|e|hlen mlen code tkl]; try congruence.
+  destruct (max <? mlen); [congruence|]. destruct (blen b <? mlen); [congruence|].
+  destruct (firstn (Z.to_nat mlen) b) as [|x fr] eqn:EF.
+  - rewrite unmarshal_nil. congruence.
+  - destruct (unmarshal_gen fx (x :: fr)); [|congruence].
+    intros H. assert (Hn : n = length (x :: fr)) by congruence. subst n.
+    split; [cbn [length]; lia|].
+    rewrite <- EF, firstn_length. lia.
+Qed.
+
+Lemma step_emit_stable fx max b it n c : step_gen fx max b = Emit it n -> step_gen fx max (b ++ c) = Emit it n.
+Proof. intros H. rewrite step_stable; [exact H|congruence]. Qed.
+Lemma step_fail_stable fx max b e c : step_gen fx max b = Fail e -> step_gen fx max (b ++ c) = Fail e.
+Proof. intros H. rewrite step_stable; [exact H|congruence]. Qed.
+Lemma step_nil fx max : step_gen fx max [] = Wait.
+Proof. reflexivity. Qed.
+
+(* ---- the loop theorems for the real one-frame function ---- *)
+
+Theorem feed_app_step : forall max s a c, feed max (feed max s a) c = feed max s (a ++ c).
+Proof.
+  intros max. apply feed_app.
+  - apply step_emit_len. - apply step_emit_stable. - apply step_fail_stable.
+Qed.
+
+Theorem segmentation_step : forall max cs, fold_left (feed max) cs init = feed max init (concat cs).
+Proof.
+  intros max. apply segmentation.
+  - apply step_emit_len. - apply step_emit_stable. - apply step_fail_stable. - apply step_nil.
+Qed.
+
+(* header prefix-stability: DecodeHeader answers ErrShortRead exactly on the
+   proper prefixes of a header *)
+Theorem header_prefix fx b hlen mlen code tkl :
+  decode_header_gen fx b = HOk hlen mlen code tkl ->
+  forall n, decode_header_gen fx (firstn n b) =
+            if Z.of_nat n <? hlen then HShort else HOk hlen mlen code tkl.
+Proof.
+  intros H n.
+  destruct (Z.ltb_spec (Z.of_nat n) hlen) as [Hlt|Hge].
+  - (* fewer bytes than the header: any decided answer would carry over to b *)
+    destruct (decode_header_gen fx (firstn n b)) as [|e|h' m' c' t'] eqn:E; [reflexivity| |].
+    + pose proof (decode_header_stable fx (firstn n b) (skipn n b)) as S.
+      rewrite firstn_skipn, E, H in S. discriminate S. congruence.
+    + pose proof (decode_header_stable fx (firstn n b) (skipn n b)) as S.
+      rewrite firstn_skipn, E, H in S. specialize (S ltac:(congruence)). injection S as -> -> -> ->.
+      apply decode_header_ok_len in E. destruct E as ((_ & E) & _).
+      unfold blen in E. rewrite firstn_length in E. lia.
+  - (* the whole header is there *)
+    pose proof (decode_header_ok_len _ _ _ _ _ _ H) as ((H2 & Hb) & Ht & Hm).
+    destruct b as [|b0 r]; [cbn in H; congruence|].
+    destruct n as [|n]; [lia|]. cbn [firstn].
+    revert H. unfold decode_header_gen.
+    destruct (fx && (MaxTokenSize <? b0 mod 16)); [congruence|].
+    destruct (blen r <? Z.of_nat (ext_size (b0 / 16))) eqn:E1; [congruence|].
+    set (ext := ext_size (b0 / 16)) in *.
+    destruct (fx && (b0 / 16 =? 15) && (messageMaxLen <? be (firstn ext r))) eqn:E3; [congruence|].
+    destruct (skipn ext r) as [|code' r3] eqn:ES; [congruence|].
+    destruct (blen r3 <? b0 mod 16) eqn:E2; [congruence|].
+    intros H.
+    assert (Hh : hlen = 1 + Z.of_nat ext + 1 + b0 mod 16) by congruence.
+    apply Z.ltb_ge in E1, E2.
+    pose proof (Z.mod_pos_bound b0 16 ltac:(lia)) as Hb0.
+    assert (Hn : (ext + 1 + Z.to_nat (b0 mod 16) <= n)%nat) by lia.
+    assert (Hlen : (ext <= length r)%nat) by (unfold blen in E1; lia).
+    assert (E1' : (blen (firstn n r) <? Z.of_nat ext) = false).
+    { apply Z.ltb_ge. unfold blen. rewrite firstn_length. lia. }
+    rewrite E1'.
+    assert (F1 : firstn ext (firstn n r) = firstn ext r).
+    { rewrite firstn_firstn. f_equal. lia. }
+    rewrite F1, E3.
+    assert (F2 : skipn ext (firstn n r) = firstn (n - ext) (skipn ext r)).
+    { apply skipn_firstn_comm. }
+    rewrite F2, ES.
+    destruct (n - ext)%nat as [|k] eqn:EK; [lia|]. cbn [firstn].
+    assert (E2' : (blen (firstn k r3) <? b0 mod 16) = false).
+    { apply Z.ltb_ge. unfold blen in *. rewrite firstn_length. lia. }
+    rewrite E2'. exact H.
+Qed.
